@@ -362,7 +362,14 @@ Fixpoint trace (ft : fault) (st : state) (h : list (list op)) : list state :=
 Inductive cop :=
 | CStorage (o : op)
 | CAdd (k : key) (v : shape)
-| CRemove (k : key).
+| CRemove (k : key)
+| CStale (i : id) (v : shape).
+(* CStale i v: append a new value through a REFERENCE that still designates the container with slab id i
+   (an authorized reference to a struct's container field obtained before the field was overwritten).
+   A reference to a non-resource container is not invalidated when the container is deep-removed; the
+   wrapper keeps its atree array, and atree's Append stores the array's root slab again.  When slab i is
+   still allocated this is an ordinary insertion; when it has been removed the slab is re-created and
+   nothing references it. *)
 
 Fixpoint pu_get (pu : list (key * option id)) (k : key) : option (option id) :=
   match pu with
@@ -402,6 +409,13 @@ Definition exec_cop (ft : fault) (st : state) (pu : list (key * option id)) (c :
       end in
     (* recordContractUpdate(location, nil): the recorded value (if any) is replaced; nothing is freed *)
     if deployed then Some (st, pu_set pu k None) else Some (st, pu)
+  | CStale i v =>
+    let nw := next st in
+    let '(m, ss) := alloc v nw in
+    match lookup (slabs st) i with
+    | Some (p, es) => Some (mkst (update (ss ++ slabs st) i (p, es ++ [(0, nw)])) (roots st) m, pu)
+    | None => Some (mkst ((i, (0, [(0, nw)])) :: ss ++ slabs st) (roots st) m, pu)   (* the removed slab is stored again *)
+    end
   end.
 
 Fixpoint exec_cops (ft : fault) (st : state) (pu : list (key * option id)) (cs : list cop)
@@ -447,13 +461,15 @@ Fixpoint trace_c (ft : fault) (st : state) (h : list (list cop)) : list state :=
   | tx :: r => let st' := snd (exec_ctx ft st tx) in st' :: trace_c ft st' r
   end.
 
-(* the guard excluding the defect: no transaction removes a contract it added itself *)
+(* the guard excluding the defects: no transaction removes a contract it added itself, and no mutation goes
+   through a retained container reference (insertions through live references are OPut operations) *)
 Fixpoint no_add_remove (added : list key) (tx : list cop) : bool :=
   match tx with
   | [] => true
   | CAdd k _ :: r => no_add_remove (k :: added) r
   | CRemove k :: r => negb (existsb (key_eqb k) added) && no_add_remove added r
   | CStorage _ :: r => no_add_remove added r
+  | CStale _ _ :: _ => false
   end.
 
 (* ---------------------------------------------------------------- the health specification *)
